@@ -330,16 +330,16 @@ def run(tier, seed, t0):
     for kind, nm, known in SCEN:
         try:
             storage_scenario(e3, kind, nm, known)
-        except sym.Unsupported as ex:
+        except _e3.ENC_ERRORS as ex:
             e3.error(nm, "MIR->SMT encoding of dogstatsd storage", ex)
     try:
         config_tables(e3)
-    except sym.Unsupported as ex:
+    except _e3.ENC_ERRORS as ex:
         e3.error("c10_tables", "decision tables of State::get_aggregation_timestamp / is_length_prefixed", ex)
     for n in ([4] if tier == "quick" else [3, 4, 5]):
         try:
             flush_history(e3, n)
-        except sym.Unsupported as ex:
+        except _e3.ENC_ERRORS as ex:
             e3.error(f"c10_flush_history_{n}", "MIR->SMT encoding of State::flush", ex)
     obs = list(e3.res.obligations)
     obs += kani.run_group("dsd", HARNESSES, tier, hooks=True, stubbing=True)
